@@ -491,7 +491,7 @@ func c03Alphabet(s *sessSys) []sessReq {
 			}
 			add("mod-ufar-unknown", sessReq{sReq: sReq{Kind: kMod, Conn: c, UpdateFAR: []sFAR{{ID: 77, Action: ActionDrop, HasFwd: true}}}, Sess: x.Idx})
 			if xue != "" && xteid != 0 {
-				if x.pdr(5) == nil {
+				if x.pdr(5) == nil && x.pdr(6) == nil && x.far(3) == nil && x.qer(7) == nil {
 					np := sdfPDRs(5, xue, xteid, 40, "permit out udp from 10.9.0.0/16 53 to assigned", 3, 3, []uint32{7})
 					add("mod-create", sessReq{sReq: sReq{Kind: kMod, Conn: c, CreatePDR: np, CreateFAR: []sFAR{{ID: 3, Action: ActionDrop}}, CreateQER: []sQER{{ID: 7, QFI: 7, MBRUL: 10, MBRDL: 10}}}, Sess: x.Idx})
 				}
@@ -511,7 +511,7 @@ func c03Alphabet(s *sessSys) []sessReq {
 					add("mod-updr-newkey", sessReq{sReq: sReq{Kind: kMod, Conn: c, UpdatePDR: []sPDR{nk}}, Sess: x.Idx})
 				}
 			}
-			if xue != "" && xteid != 0 && x.pdr(5) == nil {
+			if xue != "" && xteid != 0 && x.pdr(5) == nil && x.pdr(6) == nil && x.far(1) != nil && x.far(2) != nil {
 				np := sdfPDRs(5, xue, xteid, 40, "permit out udp from 10.9.0.0/16 53 to assigned", 1, 2, nil)
 				add("mod-create-then-remove-unknown", sessReq{sReq: sReq{Kind: kMod, Conn: c, CreatePDR: np, RemovePDR: []uint16{99}}, Sess: x.Idx})
 			}
@@ -600,6 +600,8 @@ func c03Oracle(c *stepCtx) {
 			return
 		}
 		v.desc += "; still so after a further accepted establishment"
+		// whatever table shows it first, the cause is one: a rejected request left traces in the datapath
+		v.class = "rejected-request-left-traces"
 	}
 	s.violation("c03:"+v.class+":after="+c.req.Label, v.desc+" (after "+c.req.Label+")")
 }
@@ -623,9 +625,9 @@ func TestVerifC03(t *testing.T) {
 		"distinct_nontrivial = distinct canonical states + distinct (history, kill index) restart cases"
 	res.Assumptions = []string{"fake BESS renders WildcardMatch/ExactMatch/Qos semantics: add = upsert by key, delete of an absent key = error, clear empties",
 		"the rule denotation of DESIGN.md appendix A.1-A.3", "acceptance is observed on the wire, not predicted"}
-	depth := 4
+	depth := 5
 	if vEnv.Thorough {
-		depth = 5
+		depth = 6
 	}
 	scs := []c03Scenario{
 		{Name: "bess-1assoc", Cfg: vCfg{NConns: 1}},
